@@ -5,10 +5,74 @@
 #include "via/http/request.hpp"
 #include "via/http/response.hpp"
 #include "via/http/chunk.hpp"
+#include "via/http/request_router.hpp"
+#include "via/http/authentication/basic.hpp"
 #include "hutil.hpp"
+#include <map>
+#include <algorithm>
 
 using namespace via::http;
 static std::string b2s(bool b) { return b ? "1" : "0"; }
+
+static std::string show_params(Parameters const& p)
+{
+  std::vector<std::string> l;
+  for (auto const& kv : p) l.push_back(hu::hex(kv.first) + ":" + hu::hex(kv.second));
+  std::sort(l.begin(), l.end());
+  if (l.empty()) return "-";
+  std::string out;
+  for (size_t i = 0; i < l.size(); ++i) { if (i) out += ","; out += l[i]; }
+  return out;
+}
+
+typedef rx_request<8190, 32, 100, 65534, 8190, 8, false> RxReq;
+typedef request_router<std::string, RxReq> Router;
+
+// route <regs> <method> <target> [<headers>] : build the table with add_method, parse a request line with
+// the given method and target, call handle_request.  With a 5th argument `users` (u:p;u:p hex) and a
+// realm, handlers registered with auth index 0 are protected by a basic authenticator.
+static std::string do_route(std::vector<std::string> const& a)
+{
+  Router router;
+  int called = -1, ncalled = 0;
+  Parameters got;
+  authentication::basic auth(a.size() > 5 ? hu::unhex(a[5]) : std::string());
+  if (a.size() > 4)
+    for (auto const& up : hu::split(a[4], ';'))
+    {
+      auto p = hu::split(up, ':');
+      auth.add_user(hu::unhex(p[0]), p.size() > 1 ? hu::unhex(p[1]) : std::string());
+    }
+  for (auto const& r : hu::split(a[0], ','))
+  {
+    auto p = hu::split(r, '|');
+    int hid = std::stoi(p[2]);
+    router.add_method(hu::unhex(p[0]), hu::unhex(p[1]),
+      [hid, &called, &ncalled, &got](RxReq const&, Parameters const& params, std::string const&, std::string&)
+      { called = hid; ++ncalled; got = params; return tx_response(response_status::code::OK); },
+      p[3] == "-" ? nullptr : &auth);
+  }
+  std::string text = hu::unhex(a[1]) + " " + hu::unhex(a[2]) + " HTTP/1.1\r\nHost: h\r\n"
+                   + (a.size() > 3 ? hu::unhex(a[3]) : std::string()) + "\r\n";
+  RxReq req;
+  auto it = text.cbegin();
+  if (!req.parse(it, text.cend())) return "HARNESS-ERROR request-not-parsed";
+  std::string body, rbody;
+  tx_response resp = router.handle_request(req, body, rbody);
+  if (ncalled > 1) return "MULTI " + std::to_string(ncalled);
+  if (called >= 0) return "H " + std::to_string(called) + " " + show_params(got);
+  std::string msg = resp.message();
+  auto value_of = [&msg](std::string const& name) {
+    auto p = msg.find(name + ": ");
+    if (p == std::string::npos) return std::string("?");
+    auto e = msg.find("\r\n", p);
+    return hu::hex(msg.substr(p + name.size() + 2, e - p - name.size() - 2));
+  };
+  if (resp.status() == 404) return "404";
+  if (resp.status() == 405) return "405 " + value_of("Allow");
+  if (resp.status() == 401) return "401 " + value_of("WWW-Authenticate");
+  return "STATUS " + std::to_string(resp.status());
+}
 
 static std::string handle(std::string const& op, std::vector<std::string> const& a)
 {
@@ -66,6 +130,16 @@ static std::string handle(std::string const& op, std::vector<std::string> const&
     auto id = static_cast<header_field::id>(std::stoi(a[0]));
     return hu::hex(header_field::to_header(id, hu::unhex(a[1]))) + " " + hu::hex(header_field::lowercase_name(id));
   }
+  if (op == "splitstr")
+  {
+    auto v = split(hu::unhex(a[0]), static_cast<char>(std::stoi(a[1])));
+    std::string out;
+    for (size_t i = 0; i < v.size(); ++i) { if (i) out += ","; out += hu::hex(v[i]); }
+    return out;
+  }
+  if (op == "uripath") { request_uri u(hu::unhex(a[0])); return hu::hex(u.path()); }
+  if (op == "routeparams") return show_params(get_route_parameters(hu::unhex(a[0]), hu::unhex(a[1])));
+  if (op == "route") return do_route(a);
   return "HARNESS-ERROR unknown-op " + op;
 }
 
